@@ -59,6 +59,7 @@ def run(drv, script_text, workdir, tmpdir_mode=False, inject=None, env=None, nth
     tracedir = os.path.join(workdir, "trace")
     e = dict(os.environ)
     e["OVNI_TRACEDIR"] = tracedir
+    e["RTDRV_NOCATCH"] = "1"
     e.pop("OVNI_TMPDIR", None)
     tmpdir = None
     if tmpdir_mode:
